@@ -346,6 +346,9 @@ def r65(db, ctx):
                         k2 = k2.replace(f'core::slice::len(arg{a_})', f'core::slice::len(arg{b_})')
                     o[k2] = o.get(k2, 0) + v
                 return o
+            # accesses through a sub-slice addressed by an index expression: what that expression's own operators guarantee
+            for o_ in getattr(root, 'subslice_offs', []) or []:
+                hyps += K.index_facts(o_)
             hyps = [ren(h) for h in hyps]
             lin = ren(lin)
             hyps += ceil_div_facts(lin, hyps)
